@@ -605,7 +605,7 @@ impl<E: Endpoint> World<E> {
         true
     }
     fn handshake(&mut self, o: &Shared, r: &mut Rng, lossy: bool) {
-        self.apply(o, &Label::Connect(0));
+        if state_of(&self.fp(0)) == "Unconnected" { self.apply(o, &Label::Connect(0)); }
         for _ in 0..40 {
             if self.proto == "6nt" {
                 // the peer does not know the token extension: it sees a plain Connect
@@ -767,6 +767,24 @@ fn run_proto<E: Endpoint>(a: &Args, o: &Shared, proto: &str, modes: &[&str]) {
                         }
                     }
                     if !w.online(0) && state_of(&w.fp(0)) == "Unconnected" { w.handshake(o, &mut r, lossy); }
+                    if *mode == "fair" && r.chance(1, 8) && w.online(0) && !(w.s[0].dead || w.s[1].dead) {
+                        // a burst: several hundred vital chunks submitted before the first acknowledgement comes back
+                        // (every datagram of the burst is lost or late, nothing is reordered), then the fair suffix
+                        let n = *r.pick(&[300usize, 511, 512, 513, 514, 515, 600, 700]);
+                        for i in 0..n {
+                            w.apply(o, &Label::Send(0, vec![(i % 251) as u8; (i % 3) as usize], true));
+                            if i % 40 == 39 { w.apply(o, &Label::Flush(0)); }
+                            if w.s[0].dead { break; }
+                        }
+                        w.apply(o, &Label::Flush(0));
+                        if r.chance(1, 2) { while !w.bag[0].is_empty() { w.apply(o, &Label::Drop(0, 0)); } }
+                        if !(w.s[0].dead || w.s[1].dead) {
+                            let q = w.fair_suffix(o);
+                            let (fa, fb) = (w.fp(0), w.fp(1));
+                            o.lock().unwrap().check(q, "-", &trace, || format!("C02: no quiescence within 60 fair rounds after a burst of {} vital chunks; A={} B={}", n, &fa[..fa.len().min(300)], &fb[..fb.len().min(200)]));
+                        }
+                        continue;
+                    }
                     let loss = *r.pick(&[0u64, 5, 20, 40]);
                     let steps = if th { 40 + r.below(400) } else { 30 + r.below(150) };
                     for _ in 0..steps { w.random_step(o, &mut r, max_chunk, loss); if w.s[0].dead || w.s[1].dead { break; } }
@@ -779,7 +797,7 @@ fn run_proto<E: Endpoint>(a: &Args, o: &Shared, proto: &str, modes: &[&str]) {
                 "wrap" => {
                     // > 1024 vital chunks with acks: the sequence space wraps
                     w.handshake(o, &mut r, false);
-                    for i in 0..(1100 + r.below(200)) {
+                    for i in 0..(1400 + r.below(200)) {
                         let side = if i % 5 == 4 { 1 } else { 0 };
                         if w.online(side) { w.apply(o, &Label::Send(side, vec![(i % 251) as u8, (i / 251) as u8], true)); }
                         if i % 3 == 2 { w.apply(o, &Label::Flush(0)); if w.online(1) { w.apply(o, &Label::Flush(1)); } }
@@ -791,6 +809,8 @@ fn run_proto<E: Endpoint>(a: &Args, o: &Shared, proto: &str, modes: &[&str]) {
                         let q = w.fair_suffix(o);
                         o.lock().unwrap().check(q, "-", &trace, || "C02: no quiescence after the wrap trace".to_string());
                     }
+                    let dead = w.s[0].dead || w.s[1].dead;
+                    o.lock().unwrap().check(!dead, "-", &trace, || "C04: a sequence of valid API calls panicked (wrap trace: more than 1024 vital chunks; see the trace's last line)".to_string());
                 }
                 "sender" => {
                     // C04: stress the sending side with valid API calls only
@@ -826,8 +846,23 @@ fn run_proto<E: Endpoint>(a: &Args, o: &Shared, proto: &str, modes: &[&str]) {
                 }
                 _ => {
                     // hostile: foreign tokens, mutations, truncations, garbage fed at every point
-                    let lossy = r.chance(1, 3); w.handshake(o, &mut r, lossy);
-                    let mut captured: Vec<Vec<u8>> = vec![];
+                    let lossy = r.chance(1, 3);
+                    if r.chance(1, 3) {
+                        // the connecting side, still waiting for the first answer, is shown its own first datagram
+                        // (reflected) and variants of it with another token value inside
+                        w.apply(o, &Label::Connect(0));
+                        let own: Vec<Vec<u8>> = w.bag[0].iter().map(|d| d.bytes.clone()).collect();
+                        for d in own {
+                            w.apply(o, &Label::FeedRaw(0, d.clone()));
+                            let mut e = d.clone();
+                            let n = e.len();
+                            if n >= 12 { for j in 8..12 { e[j] = r.byte(); } }
+                            w.apply(o, &Label::FeedRaw(0, e));
+                        }
+                    }
+                    w.handshake(o, &mut r, lossy);
+                    // the handshake datagrams of both directions are known to the attacker as well
+                    let mut captured: Vec<Vec<u8>> = w.arch.iter().flat_map(|a| a.iter().map(|d| d.bytes.clone())).collect();
                     let steps = if th { 150 } else { 60 };
                     for _ in 0..steps {
                         if w.s[0].dead || w.s[1].dead { break; }
@@ -835,7 +870,25 @@ fn run_proto<E: Endpoint>(a: &Args, o: &Shared, proto: &str, modes: &[&str]) {
                         if r.chance(1, 2) { w.random_step(o, &mut r, max_chunk, 10); continue; }
                         let side = r.below(2) as usize;
                         let mut d = if captured.is_empty() || r.chance(1, 6) { let n = r.below(40) as usize; r.bytes(n) } else { r.pick(&captured).clone() };
-                        match r.below(6) {
+                        match r.below(8) {
+                            6 | 7 => {
+                                // the acknowledgement field names a chunk the target still has in flight (or its
+                                // current sequence number); the token is the placeholder, random, or left as captured
+                                if d.len() >= 7 {
+                                    let fp = w.fp(side);
+                                    let mut seqs: Vec<u16> = vec![];
+                                    if let Some(q) = fp.split("q=[").nth(1) { for e in q.split(',') { if let Some(n) = e.split('@').next().and_then(|x| x.trim_end_matches(']').parse::<u16>().ok()) { seqs.push(n); } } }
+                                    if let Some(n) = field(&fp, "seq=").and_then(|x| x.parse::<u16>().ok()) { seqs.push(n); }
+                                    if !seqs.is_empty() {
+                                        let a = *r.pick(&seqs) & 0x3ff;
+                                        d[0] = (d[0] & 0xfc) | (a >> 8) as u8;
+                                        d[1] = (a & 0xff) as u8;
+                                    }
+                                    let n = d.len();
+                                    let off = if v7 { 3 } else { n - 4 };
+                                    match r.below(3) { 0 => { for j in 0..4 { d[off + j] = 0xff; } } 1 => { for j in 0..4 { d[off + j] = r.byte(); } } _ => {} }
+                                }
+                            }
                             0 => { let k = r.below(d.len() as u64 + 1) as usize; d.truncate(k); }
                             1 => { if !d.is_empty() { let k = r.below(d.len() as u64) as usize; d[k] ^= 1 << r.below(8); } }
                             2 => { let n = d.len(); if n >= 4 { let off = if v7 { 3.min(n - 4) } else { n - 4 }; for j in 0..4 { d[off + j] = r.byte(); } } }
